@@ -44,6 +44,28 @@ func parserInputs(o *propOpts, each func(e *entry, s string, origin string)) {
 		}
 		each(entryByName(entryForDir(cf.Dir)), s, "mutation")
 	}
+	// structural recombinations of the golden inputs (see graft.go), up to two steps deep
+	ngraft := 4000
+	if o.tier == "thorough" {
+		ngraft = 80000
+	}
+	for i := 0; i < ngraft; i++ {
+		cf := files[r.intn(len(files))]
+		if cf.Bad {
+			continue
+		}
+		e := entryByName(entryForDir(cf.Dir))
+		s := graft(r, e, cf.Text)
+		if s == "" {
+			continue
+		}
+		if r.intn(3) == 0 {
+			if s2 := graft(r, e, s); s2 != "" {
+				s = s2
+			}
+		}
+		each(e, s, "graft")
+	}
 	// expression soups: operators and atoms glued with blanks (valid and invalid)
 	nexpr := 1500
 	if o.tier == "thorough" {
